@@ -4,28 +4,35 @@
    ALL scripts.  Nothing here changes the model.
 
    The trace has no "leaf completed" event (an external completion is a script event, a stop-reactive
-   completion happens inside the leaf's stop callback), so the property is stated with a life-cycle
-   automaton per KEY (a leaf id, or a scheduler context for schedule() operations, whose destruction
-   event carries only the context):
+   completion happens inside the leaf's stop callback), so the property is stated with life-cycle
+   automata per KEY (a leaf id, or a scheduler context for schedule() operations, whose destruction
+   event carries only the context).  The automaton state is (r, d) = number of running / of
+   completed-but-not-destroyed operation states of the key.
 
-       life k m r d tr r' d'     reading the events tr takes the automaton for key k from
-                                 (r running, d completed-but-alive operation states) to (r', d')
+   Coarse automaton   life k m r d tr r' d'          (used for whole runs and the counting corollaries)
          start  k : r+d < m, r := r+1         (m = number of leaves of the expression with key k;
                                                with unique leaf ids m = 1: never started while alive)
          touch  k : needs r >= 1              (TLeafStop / TReqStop: only a RUNNING leaf is touched)
          dtor   k : needs d >= 1, d := d-1    (only a COMPLETED operation state is destroyed: never early,
                                                never twice, never before start)
          (silent) : r >= 1, r := r-1, d := d+1  (the completion itself)
-   and the (r, d) at every step boundary are the numbers read off the model's own state ([nr], [nd]:
-   [OLeaf false _] / [OHeld _] = running, [OLeaf true _] = completed and alive), so the silent completion
-   is pinned by the model state between any two script events.                                        *)
+
+   Refined automaton  lifeX k m rho ext r d p tr r' d' p'    (used for one call of start / stop / leafev)
+       the silent completion must be JUSTIFIED: either the external event being processed is addressed to
+       the key (ext = true: EvLeaf id for leaf id; any leaf event for a scheduler context), or the leaf is
+       stop-reactive (rho id) and its stop callback has just run (the TLeafStop event grants one permit p).
+       So an operation state that is running and is neither addressed by the current event nor
+       stop-reactive cannot complete, hence (dtor needs d >= 1) cannot be destroyed, during that call.
+
+   The (r, d) at every call boundary are the numbers read off the model's own state ([nr], [nd]:
+   [OLeaf false _] / [OHeld _] = running, [OLeaf true _] = completed and alive).                      *)
 From Coq Require Import ZArith List Bool Arith Lia.
 From V Require Import Calc.Calc2Defs Calc.Once2Proofs.
 Import ListNotations.
 Import Calc2.
 
 (* ------------------------------------------------------------------------------------------------ *)
-(* The life-cycle automaton                                                                         *)
+(* The coarse life-cycle automaton                                                                  *)
 (* ------------------------------------------------------------------------------------------------ *)
 
 Inductive key := KLeaf (id : nat) | KSched (c : nat).
@@ -71,32 +78,146 @@ Proof.
   - apply L_skip; auto.
 Qed.
 
-(* other operation states of the same key do not disturb a life cycle *)
-Lemma life_frame : forall k m r d tr r' d', life k m r d tr r' d' ->
-  forall x y z, x + y <= z -> life k (m + z) (r + x) (d + y) tr (r' + x) (d' + y).
-Proof.
-  intros k m r d tr r' d' H. induction H; intros x y z Hz; simpl.
-  - apply L_nil.
-  - apply L_compl. exact (IHlife x y z Hz).
-  - apply L_start; [assumption|lia|]. exact (IHlife x y z Hz).
-  - apply L_touch; [assumption|]. exact (IHlife x y z Hz).
-  - apply L_dtor; [assumption|]. exact (IHlife x y z Hz).
-  - apply L_skip; [assumption|]. exact (IHlife x y z Hz).
-Qed.
-
-Lemma life_frame_l : forall k m r d tr r' d', life k m r d tr r' d' ->
-  forall x y z, x + y <= z -> life k (z + m) (x + r) (y + d) tr (x + r') (y + d').
-Proof.
-  intros. rewrite (Nat.add_comm z m), (Nat.add_comm x r), (Nat.add_comm y d), (Nat.add_comm x r'), (Nat.add_comm y d').
-  apply life_frame; assumption.
-Qed.
-
-Lemma life_skips : forall k m r d tr, Forall (fun t => ev_act k t = None) tr -> life k m r d tr r d.
-Proof. intros k m r d tr H. induction H; [apply L_nil|apply L_skip; assumption]. Qed.
-
 (* the total number of alive operation states never exceeds the capacity *)
 Lemma life_bound : forall k m r d tr r' d', life k m r d tr r' d' -> r + d <= m -> r' + d' <= m.
 Proof. intros k m r d tr r' d' H. induction H; intros B; auto; apply IHlife; lia. Qed.
+
+(* ------------------------------------------------------------------------------------------------ *)
+(* The refined automaton: completions must be justified                                             *)
+(* ------------------------------------------------------------------------------------------------ *)
+
+Inductive xact := XStart | XTouch | XTouchC | XDtor.
+
+(* rho id: leaf id is stop-reactive, its TLeafStop is a completing touch *)
+Definition ev_xact (k : key) (rho : nat -> bool) (t : tev) : option xact :=
+  match t with
+  | TLeafStart id _ _ _ _ _ _ => if lkb k id then Some XStart else None
+  | TLeafStop id => if lkb k id then Some (if rho id then XTouchC else XTouch) else None
+  | TReqStop id _ => if lkb k id then Some XTouch else None
+  | TLeafDtor id => if lkb k id then Some XDtor else None
+  | TSchedStart _ c => if skb k c then Some XStart else None
+  | TSchedDtor c => if skb k c then Some XDtor else None
+  | _ => None
+  end.
+
+(* is an external leaf event with this id addressed to key k?  (a queued schedule() item is addressed by
+   its id, which the destruction event does not carry: every leaf event may concern a scheduler key) *)
+Definition key_addr (k : key) (id : nat) : bool := match k with KLeaf i => Nat.eqb i id | KSched _ => true end.
+
+Inductive lifeX (k : key) (m : nat) (rho : nat -> bool) (ext : bool)
+  : nat -> nat -> nat -> list tev -> nat -> nat -> nat -> Prop :=
+| X_nil : forall r d p, lifeX k m rho ext r d p [] r d p
+| X_ext : forall r d p tr r' d' p', ext = true ->
+    lifeX k m rho ext r (S d) p tr r' d' p' -> lifeX k m rho ext (S r) d p tr r' d' p'
+| X_cb : forall r d p tr r' d' p',
+    lifeX k m rho ext r (S d) p tr r' d' p' -> lifeX k m rho ext (S r) d (S p) tr r' d' p'
+| X_start : forall r d p t tr r' d' p', ev_xact k rho t = Some XStart -> r + d < m ->
+    lifeX k m rho ext (S r) d p tr r' d' p' -> lifeX k m rho ext r d p (t :: tr) r' d' p'
+| X_touch : forall r d p t tr r' d' p', ev_xact k rho t = Some XTouch ->
+    lifeX k m rho ext (S r) d p tr r' d' p' -> lifeX k m rho ext (S r) d p (t :: tr) r' d' p'
+| X_touchC : forall r d p t tr r' d' p', ev_xact k rho t = Some XTouchC ->
+    lifeX k m rho ext (S r) d (S p) tr r' d' p' -> lifeX k m rho ext (S r) d p (t :: tr) r' d' p'
+| X_dtor : forall r d p t tr r' d' p', ev_xact k rho t = Some XDtor ->
+    lifeX k m rho ext r d p tr r' d' p' -> lifeX k m rho ext r (S d) p (t :: tr) r' d' p'
+| X_skip : forall r d p t tr r' d' p', ev_xact k rho t = None ->
+    lifeX k m rho ext r d p tr r' d' p' -> lifeX k m rho ext r d p (t :: tr) r' d' p'.
+
+Lemma xact_act : forall k rho t,
+  ev_act k t = match ev_xact k rho t with
+               | Some XStart => Some AStart
+               | Some XTouch => Some ATouch
+               | Some XTouchC => Some ATouch
+               | Some XDtor => Some ADtor
+               | None => None
+               end.
+Proof.
+  intros k rho t. destruct t; simpl; try reflexivity;
+    try (destruct (lkb k id); try reflexivity; destruct (rho id); reflexivity);
+    destruct (skb k c); reflexivity.
+Qed.
+
+(* forgetting the justification *)
+Lemma lifeX_coarse : forall k m rho ext r d p tr r' d' p',
+  lifeX k m rho ext r d p tr r' d' p' -> life k m r d tr r' d'.
+Proof.
+  intros k m rho ext r d p tr r' d' p' H. induction H.
+  - apply L_nil.
+  - apply L_compl; assumption.
+  - apply L_compl; assumption.
+  - apply L_start; [rewrite (xact_act k rho), H; reflexivity|assumption|assumption].
+  - apply L_touch; [rewrite (xact_act k rho), H; reflexivity|assumption].
+  - apply L_touch; [rewrite (xact_act k rho), H; reflexivity|assumption].
+  - apply L_dtor; [rewrite (xact_act k rho), H; reflexivity|assumption].
+  - apply L_skip; [rewrite (xact_act k rho), H; reflexivity|assumption].
+Qed.
+
+Lemma lifeX_app : forall k m rho ext r d p t1 r1 d1 p1 t2 r2 d2 p2,
+  lifeX k m rho ext r d p t1 r1 d1 p1 -> lifeX k m rho ext r1 d1 p1 t2 r2 d2 p2 ->
+  lifeX k m rho ext r d p (t1 ++ t2) r2 d2 p2.
+Proof.
+  intros k m rho ext r d p t1 r1 d1 p1 t2 r2 d2 p2 H. induction H; intros H2; simpl; auto.
+  - apply X_ext; auto.
+  - apply X_cb; auto.
+  - apply X_start; auto.
+  - apply X_touch; auto.
+  - apply X_touchC; auto.
+  - apply X_dtor; auto.
+  - apply X_skip; auto.
+Qed.
+
+(* other operation states of the same key do not disturb a life cycle *)
+Lemma lifeX_frame : forall k m rho ext r d p tr r' d' p', lifeX k m rho ext r d p tr r' d' p' ->
+  forall x y z, x + y <= z -> lifeX k (m + z) rho ext (r + x) (d + y) p tr (r' + x) (d' + y) p'.
+Proof.
+  intros k m rho ext r d p tr r' d' p' H. induction H; intros x y z Hz; simpl.
+  - apply X_nil.
+  - apply X_ext; [assumption|]. exact (IHlifeX x y z Hz).
+  - apply X_cb. exact (IHlifeX x y z Hz).
+  - apply X_start; [assumption|lia|]. exact (IHlifeX x y z Hz).
+  - apply X_touch; [assumption|]. exact (IHlifeX x y z Hz).
+  - apply X_touchC; [assumption|]. exact (IHlifeX x y z Hz).
+  - apply X_dtor; [assumption|]. exact (IHlifeX x y z Hz).
+  - apply X_skip; [assumption|]. exact (IHlifeX x y z Hz).
+Qed.
+
+(* whatever permits are available: the form in which calls compose *)
+Definition lifeQ (k : key) (m : nat) (rho : nat -> bool) (ext : bool)
+           (r d : nat) (tr : list tev) (r' d' : nat) : Prop :=
+  forall p, exists p', lifeX k m rho ext r d p tr r' d' p'.
+
+Lemma Q_nil : forall k m rho ext r d, lifeQ k m rho ext r d [] r d.
+Proof. intros k m rho ext r d p. exists p. apply X_nil. Qed.
+
+Lemma Q_app : forall k m rho ext r d t1 r1 d1 t2 r2 d2,
+  lifeQ k m rho ext r d t1 r1 d1 -> lifeQ k m rho ext r1 d1 t2 r2 d2 -> lifeQ k m rho ext r d (t1 ++ t2) r2 d2.
+Proof.
+  intros k m rho ext r d t1 r1 d1 t2 r2 d2 H1 H2 p. destruct (H1 p) as (p1 & A). destruct (H2 p1) as (p2 & B).
+  exists p2. eapply lifeX_app; eassumption.
+Qed.
+
+Lemma Q_frame : forall k m rho ext r d tr r' d', lifeQ k m rho ext r d tr r' d' ->
+  forall x y z, x + y <= z -> lifeQ k (m + z) rho ext (r + x) (d + y) tr (r' + x) (d' + y).
+Proof.
+  intros k m rho ext r d tr r' d' H x y z Hz p. destruct (H p) as (p' & A). exists p'.
+  apply lifeX_frame; assumption.
+Qed.
+
+Lemma Q_frame_l : forall k m rho ext r d tr r' d', lifeQ k m rho ext r d tr r' d' ->
+  forall x y z, x + y <= z -> lifeQ k (z + m) rho ext (x + r) (y + d) tr (x + r') (y + d').
+Proof.
+  intros. rewrite (Nat.add_comm z m), (Nat.add_comm x r), (Nat.add_comm y d), (Nat.add_comm x r'), (Nat.add_comm y d').
+  apply Q_frame; assumption.
+Qed.
+
+Lemma Q_skip : forall k m rho ext r d t tr r' d', ev_xact k rho t = None ->
+  lifeQ k m rho ext r d tr r' d' -> lifeQ k m rho ext r d (t :: tr) r' d'.
+Proof. intros k m rho ext r d t tr r' d' E H p. destruct (H p) as (p' & A). exists p'. apply X_skip; assumption. Qed.
+
+Lemma Q_skips : forall k m rho ext r d tr, Forall (fun t => ev_xact k rho t = None) tr -> lifeQ k m rho ext r d tr r d.
+Proof. intros k m rho ext r d tr H. induction H; [apply Q_nil|apply Q_skip; assumption]. Qed.
+
+Lemma Q_coarse : forall k m rho ext r d tr r' d', lifeQ k m rho ext r d tr r' d' -> life k m r d tr r' d'.
+Proof. intros k m rho ext r d tr r' d' H. destruct (H 0) as (p' & A). eapply lifeX_coarse; eassumption. Qed.
 
 (* ------------------------------------------------------------------------------------------------ *)
 (* Reading the automaton state off an operation state                                               *)
@@ -104,6 +225,8 @@ Proof. intros k m r d tr r' d' H. induction H; intros B; auto; apply IHlife; lia
 
 Section Key.
 Variable k : key.
+Variable rho : nat -> bool.
+Variable ext : bool.
 
 (* running operation states of key k inside st *)
 Fixpoint nr (e : sexpr) (st : ost) {struct e} : nat :=
@@ -177,23 +300,23 @@ Qed.
 
 (* the destructor cascade of a completed operation destroys exactly its alive operation states *)
 Lemma dtor_life : forall e st, done_st e st ->
-  forall m r d, life k m r (nd e st + d) (dtor e st) r d.
+  forall m r d, lifeQ k m rho ext r (nd e st + d) (dtor e st) r d.
 Proof.
-  assert (LF : forall id m r d, life k m r (lk k id + d) [TLeafDtor id] r d).
-  { intros. unfold lk. destruct (lkb k id) eqn:E; simpl.
-    - apply L_dtor; [simpl; rewrite E; reflexivity|apply L_nil].
-    - apply L_skip; [simpl; rewrite E; reflexivity|apply L_nil]. }
+  assert (LF : forall id m r d, lifeQ k m rho ext r (lk k id + d) [TLeafDtor id] r d).
+  { intros id m r d p. exists p. unfold lk. destruct (lkb k id) eqn:E; simpl.
+    - apply X_dtor; [simpl; rewrite E; reflexivity|apply X_nil].
+    - apply X_skip; [simpl; rewrite E; reflexivity|apply X_nil]. }
   induction e as [v|x| |n|id|id|id c|id lvl| |kk s IHs|kk a IHa b IHb]; intros st H m r d;
-    destruct st as [|[|] sn|ns sa sb|sa sb|v']; simpl in *; try contradiction; try apply L_nil; try apply LF.
-  - unfold sk. destruct (skb k c) eqn:E; simpl.
-    + apply L_dtor; [simpl; rewrite E; reflexivity|apply L_nil].
-    + apply L_skip; [simpl; rewrite E; reflexivity|apply L_nil].
+    destruct st as [|[|] sn|ns sa sb|sa sb|v']; simpl in *; try contradiction; try apply Q_nil; try apply LF.
+  - intros p. exists p. unfold sk. destruct (skb k c) eqn:E; simpl.
+    + apply X_dtor; [simpl; rewrite E; reflexivity|apply X_nil].
+    + apply X_skip; [simpl; rewrite E; reflexivity|apply X_nil].
   - destruct sb; try contradiction. apply IHs. exact H.
   - destruct H as (Ha & Hb). destruct (dtor_b_first kk).
-    + apply life_app with (r1 := r) (d1 := nd a sa + d).
+    + apply Q_app with (r1 := r) (d1 := nd a sa + d).
       * replace (nd a sa + nd b sb + d) with (nd b sb + (nd a sa + d)) by lia. apply IHb. exact Hb.
       * apply IHa. exact Ha.
-    + apply life_app with (r1 := r) (d1 := nd b sb + d).
+    + apply Q_app with (r1 := r) (d1 := nd b sb + d).
       * rewrite <- Nat.add_assoc. apply IHa. exact Ha.
       * apply IHb. exact Hb.
 Qed.
@@ -201,19 +324,20 @@ Qed.
 (* ---- life cycles between operation states ---- *)
 
 Definition lifeS (e : sexpr) (st : ost) (tr : list tev) (st' : ost) : Prop :=
-  life k (cap e) (nr e st) (nd e st) tr (nr e st') (nd e st').
+  lifeQ k (cap e) rho ext (nr e st) (nd e st) tr (nr e st') (nd e st').
 
 Definition lifeP (a b : sexpr) (sa sb : ost) (tr : list tev) (sa' sb' : ost) : Prop :=
-  life k (cap a + cap b) (nr a sa + nr b sb) (nd a sa + nd b sb) tr (nr a sa' + nr b sb') (nd a sa' + nd b sb').
+  lifeQ k (cap a + cap b) rho ext (nr a sa + nr b sb) (nd a sa + nd b sb) tr
+        (nr a sa' + nr b sb') (nd a sa' + nd b sb').
 
 Definition kid (st : ost) : ost := match st with ONode _ a _ => a | OCompl a _ => a | _ => OFin end.
 Definition kid2 (st : ost) : ost := match st with ONode _ _ b => b | OCompl _ b => b | _ => OFin end.
 
 Lemma lifeS_refl : forall e st, lifeS e st [] st.
-Proof. intros. apply L_nil. Qed.
+Proof. intros. apply Q_nil. Qed.
 
 Lemma lifeS_app : forall e s1 t1 s2 t2 s3, lifeS e s1 t1 s2 -> lifeS e s2 t2 s3 -> lifeS e s1 (t1 ++ t2) s3.
-Proof. intros. eapply life_app; eassumption. Qed.
+Proof. intros. eapply Q_app; eassumption. Qed.
 
 Lemma lifeS_dtor : forall e st, done_st e st -> lifeS e st (dtor e st) OFin.
 Proof.
@@ -221,8 +345,8 @@ Proof.
   replace (nd e st) with (nd e st + 0) by lia. apply dtor_life; exact H.
 Qed.
 
-Lemma lifeS_skips : forall e st tr, Forall (fun t => ev_act k t = None) tr -> lifeS e st tr st.
-Proof. intros. apply life_skips. assumption. Qed.
+Lemma lifeS_skips : forall e st tr, Forall (fun t => ev_xact k rho t = None) tr -> lifeS e st tr st.
+Proof. intros. apply Q_skips. assumption. Qed.
 
 Lemma nr_un : forall kk s st, nr (Un kk s) st = nr s (kid st).
 Proof. intros. destruct st; simpl; try reflexivity; destruct s; reflexivity. Qed.
@@ -241,20 +365,20 @@ Lemma lifeS_bin : forall kk a b st tr st',
 Proof. intros kk a b st tr st' H. unfold lifeS, lifeP in *. rewrite !nr_bin, !nd_bin. exact H. Qed.
 
 Lemma lifeP_nil : forall a b sa sb, lifeP a b sa sb [] sa sb.
-Proof. intros. apply L_nil. Qed.
+Proof. intros. apply Q_nil. Qed.
 
 Lemma lifeP_app : forall a b sa sb t1 sa1 sb1 t2 sa2 sb2,
   lifeP a b sa sb t1 sa1 sb1 -> lifeP a b sa1 sb1 t2 sa2 sb2 -> lifeP a b sa sb (t1 ++ t2) sa2 sb2.
-Proof. intros. eapply life_app; eassumption. Qed.
+Proof. intros. eapply Q_app; eassumption. Qed.
 
 Lemma lifeP_a : forall a b sa sb tr sa', lifeS a sa tr sa' -> lifeP a b sa sb tr sa' sb.
 Proof.
-  intros a b sa sb tr sa' H. unfold lifeP. apply life_frame; [exact H|apply cnt_le_cap].
+  intros a b sa sb tr sa' H. unfold lifeP. apply Q_frame; [exact H|apply cnt_le_cap].
 Qed.
 
 Lemma lifeP_b : forall a b sa sb tr sb', lifeS b sb tr sb' -> lifeP a b sa sb tr sa sb'.
 Proof.
-  intros a b sa sb tr sb' H. unfold lifeP. apply life_frame_l; [exact H|apply cnt_le_cap].
+  intros a b sa sb tr sb' H. unfold lifeP. apply Q_frame_l; [exact H|apply cnt_le_cap].
 Qed.
 
 Lemma lifeP_dtor_a : forall a b sa sb, done_st a sa -> lifeP a b sa sb (dtor a sa) OFin sb.
@@ -263,34 +387,35 @@ Proof. intros. apply lifeP_a. apply lifeS_dtor. assumption. Qed.
 Lemma lifeP_dtor_b : forall a b sa sb, done_st b sb -> lifeP a b sa sb (dtor b sb) sa OFin.
 Proof. intros. apply lifeP_b. apply lifeS_dtor. assumption. Qed.
 
-Lemma lifeP_skips : forall a b sa sb tr, Forall (fun t => ev_act k t = None) tr -> lifeP a b sa sb tr sa sb.
-Proof. intros. apply life_skips. assumption. Qed.
+Lemma lifeP_skips : forall a b sa sb tr, Forall (fun t => ev_xact k rho t = None) tr -> lifeP a b sa sb tr sa sb.
+Proof. intros. apply Q_skips. assumption. Qed.
 
 End Key.
 
-Arguments lifeS k e st tr st' : simpl never.
-Arguments lifeP k a b sa sb tr sa' sb' : simpl never.
-
+Arguments lifeS k rho ext e st tr st' : simpl never.
+Arguments lifeP k rho ext a b sa sb tr sa' sb' : simpl never.
 (* ------------------------------------------------------------------------------------------------ *)
 (* The helper functions that assemble a result                                                      *)
 (* ------------------------------------------------------------------------------------------------ *)
 
 Section Helpers.
 Variable k : key.
+Variable rho : nat -> bool.
+Variable ext : bool.
 
 (* the events of a result take the automaton from the state before the call to the state after *)
-Definition Lgood (e : sexpr) (st0 : ost) (r : res) : Prop := lifeS k e st0 (snd (fst r)) (fst (fst r)).
+Definition Lgood (e : sexpr) (st0 : ost) (r : res) : Prop := lifeS k rho ext e st0 (snd (fst r)) (fst (fst r)).
 (* shape and life cycle together; GL = for a freshly started operation *)
 Definition GLs (e : sexpr) (st0 : ost) (r : res) : Prop := good2 e r /\ Lgood e st0 r.
 Local Notation GL e r := (GLs e OFin r).
 
-Lemma lifeP_cons_skip : forall a b sa sb t tr sa' sb', ev_act k t = None ->
-  lifeP k a b sa sb tr sa' sb' -> lifeP k a b sa sb (t :: tr) sa' sb'.
-Proof. intros. apply L_skip; assumption. Qed.
+Lemma lifeP_cons_skip : forall a b sa sb t tr sa' sb', ev_xact k rho t = None ->
+  lifeP k rho ext a b sa sb tr sa' sb' -> lifeP k rho ext a b sa sb (t :: tr) sa' sb'.
+Proof. intros. apply Q_skip; assumption. Qed.
 
-Lemma lifeS_cons_skip : forall e st t tr st', ev_act k t = None ->
-  lifeS k e st tr st' -> lifeS k e st (t :: tr) st'.
-Proof. intros. apply L_skip; assumption. Qed.
+Lemma lifeS_cons_skip : forall e st t tr st', ev_xact k rho t = None ->
+  lifeS k rho ext e st tr st' -> lifeS k rho ext e st (t :: tr) st'.
+Proof. intros. apply Q_skip; assumption. Qed.
 
 Ltac pieceP :=
   first [ eapply lifeP_a; eassumption
@@ -313,10 +438,10 @@ Ltac chainS :=
   repeat first [ apply lifeS_refl | pieceS | apply lifeS_cons_skip; [reflexivity|]
                | eapply lifeS_app; [pieceS|] ].
 
-Lemma un_result_skips : forall kk o, Forall (fun t => ev_act k t = None) (fst (un_result kk o)).
+Lemma un_result_skips : forall kk o, Forall (fun t => ev_xact k rho t = None) (fst (un_result kk o)).
 Proof. intros kk o. destruct kk, o; simpl; repeat constructor. Qed.
 
-Lemma un_done_L : forall kk s st0 sc tr o, done_st s sc -> lifeS k s (kid st0) tr sc ->
+Lemma un_done_L : forall kk s st0 sc tr o, done_st s sc -> lifeS k rho ext s (kid st0) tr sc ->
   Lgood (Un kk s) st0 (un_done kk s sc tr o).
 Proof.
   intros kk s st0 sc tr o D H. unfold un_done. pose proof (un_result_skips kk o) as SK.
@@ -324,14 +449,14 @@ Proof.
   destruct (un_eager kk o); unfold Lgood; simpl; apply lifeS_un; chainS.
 Qed.
 
-Lemma seq_pass_L : forall kk a b st0 sa tr o, done_st a sa -> lifeP k a b (kid st0) (kid2 st0) tr sa OFin ->
+Lemma seq_pass_L : forall kk a b st0 sa tr o, done_st a sa -> lifeP k rho ext a b (kid st0) (kid2 st0) tr sa OFin ->
   Lgood (Bin kk a b) st0 (seq_pass kk a sa tr o).
 Proof.
   intros kk a b st0 sa tr o D H. unfold seq_pass.
   destruct (eager_dtor kk); unfold Lgood; simpl; apply lifeS_bin; chainP.
 Qed.
 
-Lemma seq_final_L : forall kk a b st0 sb tr o, done_st b sb -> lifeP k a b (kid st0) (kid2 st0) tr OFin sb ->
+Lemma seq_final_L : forall kk a b st0 sb tr o, done_st b sb -> lifeP k rho ext a b (kid st0) (kid2 st0) tr OFin sb ->
   Lgood (Bin kk a b) st0 (seq_final kk b sb tr o).
 Proof.
   intros kk a b st0 sb tr o D H. unfold seq_final.
@@ -346,7 +471,7 @@ Qed.
 
 Lemma finish_conc_L : forall kk a b st0 ns sa sb tr fin leak,
   (fin <> None -> done_st a sa /\ done_st b sb) ->
-  lifeP k a b (kid st0) (kid2 st0) tr sa sb ->
+  lifeP k rho ext a b (kid st0) (kid2 st0) tr sa sb ->
   Lgood (Bin kk a b) st0 (finish_conc kk a b ns sa sb tr fin leak).
 Proof.
   intros kk a b st0 ns sa sb tr [o|] leak D H; unfold finish_conc.
@@ -367,7 +492,7 @@ Qed.
 Lemma rep_loop_L : forall s r0 rest i, GL s r0 ->
   match rep_loop s r0 rest i with
   | (_, (sc', tr', r')) =>
-      match r' with None => lifeS k s OFin tr' sc' | Some _ => lifeS k s OFin tr' (kid sc') end
+      match r' with None => lifeS k rho ext s OFin tr' sc' | Some _ => lifeS k rho ext s OFin tr' (kid sc') end
   end.
 Proof.
   intros s [[sc tr] r] rest. induction rest as [|x rest IH]; intros i (G & H); simpl.
@@ -383,7 +508,7 @@ Proof.
 Qed.
 
 Lemma rep_done_L : forall l s st0 ns sc tr o r0,
-  done_st s sc -> lifeS k s (kid st0) tr sc -> GL s r0 ->
+  done_st s sc -> lifeS k rho ext s (kid st0) tr sc -> GL s r0 ->
   Lgood (Un (URepeat l) s) st0 (rep_done l s ns sc tr o r0).
 Proof.
   intros l s st0 ns sc tr o r0 D H G. unfold rep_done.
@@ -397,7 +522,7 @@ Qed.
 Lemma retry_err_L : forall a b r0a r0bl rem i rbe e,
   GL a r0a -> (res_err r0a <> None -> GL b r0bl) -> GL b rbe ->
   match retry_err a b r0a r0bl rem i rbe e with
-  | (_, _, (st', tr', _)) => lifeP k a b OFin OFin tr' (kid st') (kid2 st')
+  | (_, _, (st', tr', _)) => lifeP k rho ext a b OFin OFin tr' (kid st') (kid2 st')
   end.
 Proof.
   intros a b [[sa tra] ra] r0bl rem. induction rem as [|rem IH]; intros i [[sb trb] rb] e Ga Gl Gb; simpl.
@@ -419,8 +544,8 @@ Proof.
 Qed.
 
 Lemma retry_node_L : forall kk a b st0 ns x tr0,
-  lifeP k a b (kid st0) (kid2 st0) tr0 OFin OFin ->
-  (match x with (_, _, (st', tr', _)) => lifeP k a b OFin OFin tr' (kid st') (kid2 st') end) ->
+  lifeP k rho ext a b (kid st0) (kid2 st0) tr0 OFin OFin ->
+  (match x with (_, _, (st', tr', _)) => lifeP k rho ext a b OFin OFin tr' (kid st') (kid2 st') end) ->
   Lgood (Bin kk a b) st0 (retry_node ns x tr0).
 Proof.
   intros kk a b st0 ns [[i' p'] [[st' tr'] r']] tr0 H0 H. unfold retry_node.
@@ -430,7 +555,7 @@ Proof.
 Qed.
 
 Lemma retry_a_done_L : forall n a b st0 ns sa tr oa r0a r0bl rbe,
-  done_st a sa -> lifeP k a b (kid st0) (kid2 st0) tr sa OFin ->
+  done_st a sa -> lifeP k rho ext a b (kid st0) (kid2 st0) tr sa OFin ->
   GL a r0a -> (res_err r0a <> None -> GL b r0bl) -> (forall e, oa = OErr e -> GL b rbe) ->
   Lgood (Bin (BRetry n) a b) st0 (retry_a_done n a b ns sa tr oa r0a r0bl rbe).
 Proof.
@@ -442,7 +567,7 @@ Proof.
 Qed.
 
 Lemma retry_b_done_L : forall n a b st0 ns sb tr ob r0a r0bl,
-  done_st b sb -> lifeP k a b (kid st0) (kid2 st0) tr OFin sb ->
+  done_st b sb -> lifeP k rho ext a b (kid st0) (kid2 st0) tr OFin sb ->
   GL a r0a -> (res_err r0a <> None -> GL b r0bl) ->
   Lgood (Bin (BRetry n) a b) st0 (retry_b_done n a b ns sb tr ob r0a r0bl).
 Proof.
@@ -471,8 +596,8 @@ Proof. intros b oa en cx IH e ->. apply IH. Qed.
 
 End Helpers.
 
-Lemma conc_reap_GL : forall k kk c st0 r, GLs k c st0 r -> GLs k c st0 (conc_reap kk c r).
-Proof. intros k kk c st0 r (G & L). split; [apply conc_reap_good; exact G|apply conc_reap_L; assumption]. Qed.
+Lemma conc_reap_GL : forall k rho ext kk c st0 r, GLs k rho ext c st0 r -> GLs k rho ext c st0 (conc_reap kk c r).
+Proof. intros k rho ext kk c st0 r (G & L). split; [apply conc_reap_good; exact G|apply conc_reap_L; assumption]. Qed.
 
 (* ------------------------------------------------------------------------------------------------ *)
 (* Symbolic execution of the big matches                                                            *)
@@ -501,38 +626,38 @@ Ltac chainS :=
 Opaque conc_child_done un_result after_first after_second is_seq un_done seq_pass seq_final conc_reap
        finish_conc rep_done retry_a_done retry_b_done un_own un_nst un_env fired res_err dtor.
 Arguments good2 e r : simpl never.
-Arguments Lgood k e st0 r : simpl never.
-Arguments GLs k e st0 r : simpl never.
+Arguments Lgood k rho ext e st0 r : simpl never.
+Arguments GLs k rho ext e st0 r : simpl never.
 
 Ltac simpl_gl :=
   repeat match goal with
-         | H : GLs _ _ _ (fst (_, _)) |- _ => simpl fst in H
-         | H : GLs _ _ _ (_, _, _) |- _ => destruct H as [? ?]
+         | H : GLs _ _ _ _ _ (fst (_, _)) |- _ => simpl fst in H
+         | H : GLs _ _ _ _ _ (_, _, _) |- _ => destruct H as [? ?]
          | H : good2 _ (_, _, _) |- _ => unfold good2 in H; simpl in H
-         | H : Lgood _ _ _ (_, _, _) |- _ => unfold Lgood in H; simpl in H
+         | H : Lgood _ _ _ _ _ (_, _, _) |- _ => unfold Lgood in H; simpl in H
          end.
 
-Ltac lstep_on k x :=
+Ltac lstep_on k rho ext x :=
   lazymatch x with
   | start ?a ?en ?cx =>
-      try (assert (GLs k a OFin (start a en cx)) by auto);
+      try (assert (GLs k rho ext a OFin (start a en cx)) by auto);
       revert_about x; destruct x as [[? ?] [?|]]; intros; simpl_gl; subst
   | stop ?a ?st ?cx =>
-      try (assert (GLs k a st (stop a st cx)) by auto);
+      try (assert (GLs k rho ext a st (stop a st cx)) by auto);
       revert_about x; destruct x as [[? ?] [?|]]; intros; simpl_gl; subst
   | leafev ?a ?st ?id ?o ?cx =>
-      try (assert (GLs k a st (fst (leafev a st id o cx))) by auto);
+      try (assert (GLs k rho ext a st (fst (leafev a st id o cx))) by auto);
       revert_about x; destruct x as [[[? ?] [?|]] ?]; intros; simpl_gl; subst
   | conc_reap ?kk ?a (start ?a ?en ?cx) =>
-      try (assert (GLs k a OFin x) by (apply conc_reap_GL; auto));
+      try (assert (GLs k rho ext a OFin x) by (apply conc_reap_GL; auto));
       revert_about x; destruct x as [[? ?] [?|]]; intros; simpl_gl; subst
   | conc_reap ?kk ?a (stop ?a ?st ?cx) =>
-      try (assert (GLs k a st x) by (apply conc_reap_GL; auto));
+      try (assert (GLs k rho ext a st x) by (apply conc_reap_GL; auto));
       revert_about x; destruct x as [[? ?] [?|]]; intros; simpl_gl; subst
   | conc_reap ?kk ?a (?s, ?t, ?r) =>
       try (match goal with
-           | H : lifeS _ a ?st0 t s |- _ =>
-               assert (GLs k a st0 x)
+           | H : lifeS _ _ _ a ?st0 t s |- _ =>
+               assert (GLs k rho ext a st0 x)
                  by (apply conc_reap_GL; split; [unfold good2; simpl; auto|unfold Lgood; simpl; exact H])
            end);
       revert_about x; destruct x as [[? ?] [?|]]; intros; simpl_gl; subst
@@ -554,7 +679,7 @@ Ltac lstep_on k x :=
 Ltac lstep :=
   simpl; rw_flags; simpl;
   lazymatch goal with
-  | |- Lgood ?k _ _ ?t => let x := head_scrut t in lstep_on k x
+  | |- Lgood ?k ?rho ?ext _ _ ?t => let x := head_scrut t in lstep_on k rho ext x
   end.
 
 Ltac gl_tuple := split; [unfold good2; simpl; solve [auto]|unfold Lgood; simpl; solve [auto]].
@@ -582,110 +707,150 @@ Ltac finish_L :=
 (* start / stop / leafev: the events of every call are a legal continuation of every life cycle      *)
 (* ------------------------------------------------------------------------------------------------ *)
 
-Lemma leaf_start_life : forall k id m (x1 x2 : bool) q0 q1 sch cx, lk k id <= m ->
-  life k m 0 0 [TLeafStart id x1 x2 q0 q1 sch cx] (lk k id) 0.
+(* ------------------------------------------------------------------------------------------------ *)
+(* start / stop / leafev: the events of every call are a legal continuation of every life cycle      *)
+(* ------------------------------------------------------------------------------------------------ *)
+
+(* the stop-reactive leaves of an expression *)
+Fixpoint leafN_ids (e : sexpr) : list nat :=
+  match e with
+  | LeafN id => [id]
+  | Un _ s => leafN_ids s
+  | Bin _ a b => leafN_ids a ++ leafN_ids b
+  | _ => []
+  end.
+
+(* rho knows the stop-reactive leaves of e *)
+Definition Rok (rho : nat -> bool) (e : sexpr) : Prop := forall id, In id (leafN_ids e) -> rho id = true.
+
+Lemma lkb_addr : forall k id, lkb k id = true -> key_addr k id = true.
+Proof. destruct k; simpl; auto; discriminate. Qed.
+
+Lemma skb_addr : forall k c id, skb k c = true -> key_addr k id = true.
+Proof. destruct k; simpl; auto; discriminate. Qed.
+
+Section LeafL.
+Variable k : key.
+Variable rho : nat -> bool.
+Variable ext : bool.
+
+Lemma XL_start : forall id m (x1 x2 : bool) q0 q1 sch cx, lk k id <= m ->
+  lifeQ k m rho ext 0 0 [TLeafStart id x1 x2 q0 q1 sch cx] (lk k id) 0.
 Proof.
-  intros. unfold lk in *. destruct (lkb k id) eqn:E.
-  - apply L_start; [simpl; rewrite E; reflexivity|lia|apply L_nil].
-  - apply L_skip; [simpl; rewrite E; reflexivity|apply L_nil].
+  intros id m x1 x2 q0 q1 sch cx H p. exists p. unfold lk in *. destruct (lkb k id) eqn:E.
+  - apply X_start; [simpl; rewrite E; reflexivity|lia|apply X_nil].
+  - apply X_skip; [simpl; rewrite E; reflexivity|apply X_nil].
 Qed.
 
-Lemma leaf_touch_life : forall k id m t d, (t = TLeafStop id \/ exists l, t = TReqStop id l) ->
-  life k m (lk k id) d [t] (lk k id) d.
+(* the stop callback of a leaf / the callable of LeafR runs: the leaf is running, and stays running *)
+Lemma XL_touch : forall id m t d, (t = TLeafStop id \/ exists l, t = TReqStop id l) ->
+  lifeQ k m rho ext (lk k id) d [t] (lk k id) d.
 Proof.
-  intros k id m t d H. unfold lk. destruct (lkb k id) eqn:E.
-  - apply L_touch; [destruct H as [->|(l & ->)]; simpl; rewrite E; reflexivity|apply L_nil].
-  - apply L_skip; [destruct H as [->|(l & ->)]; simpl; rewrite E; reflexivity|apply L_nil].
+  intros id m t d H p. unfold lk. destruct (lkb k id) eqn:E.
+  - destruct H as [->|(l & ->)].
+    + destruct (rho id) eqn:R.
+      * exists (S p). apply X_touchC; [simpl; rewrite E, R; reflexivity|apply X_nil].
+      * exists p. apply X_touch; [simpl; rewrite E, R; reflexivity|apply X_nil].
+    + exists p. apply X_touch; [simpl; rewrite E; reflexivity|apply X_nil].
+  - exists p. apply X_skip; [destruct H as [->|(l & ->)]; simpl; rewrite E; reflexivity|apply X_nil].
 Qed.
 
-Lemma leaf_compl_life : forall k id m, life k m (lk k id) 0 [] 0 (lk k id).
+(* a stop-reactive leaf completes from its stop callback *)
+Lemma XL_stopN : forall id m, rho id = true -> lifeQ k m rho ext (lk k id) 0 [TLeafStop id] 0 (lk k id).
 Proof.
-  intros. unfold lk. destruct (lkb k id); [apply L_compl|]; apply L_nil.
+  intros id m R p. exists p. unfold lk. destruct (lkb k id) eqn:E.
+  - apply X_touchC; [simpl; rewrite E, R; reflexivity|]. apply X_cb. apply X_nil.
+  - apply X_skip; [simpl; rewrite E; reflexivity|apply X_nil].
 Qed.
 
-Lemma life_snoc_compl : forall k m r d tr r' d', life k m r d tr (S r') d' -> life k m r d tr r' (S d').
+(* the external completion of the addressed leaf *)
+Lemma XL_ext : forall id m, (lkb k id = true -> ext = true) -> lifeQ k m rho ext (lk k id) 0 [] 0 (lk k id).
 Proof.
-  intros. rewrite <- (app_nil_r tr). eapply life_app; [eassumption|]. apply L_compl, L_nil.
+  intros id m H p. exists p. unfold lk. destruct (lkb k id) eqn:E.
+  - apply X_ext; [apply H; reflexivity|apply X_nil].
+  - apply X_nil.
 Qed.
 
-Lemma leaf_life_compl : forall k id m r d tr, life k m r d tr (lk k id) 0 -> life k m r d tr 0 (lk k id).
-Proof.
-  intros k id m r d tr H. rewrite <- (app_nil_r tr). eapply life_app; [eassumption|]. apply leaf_compl_life.
-Qed.
+End LeafL.
 
-Ltac leaf_solve :=
+Ltac leaf_solveX :=
   unfold GLs, good2, Lgood, lifeS; simpl;
   split; [solve [auto]|];
   repeat first
-   [ apply L_nil
-   | apply leaf_compl_life
-   | apply leaf_start_life; apply le_n
-   | apply leaf_touch_life; solve [eauto]
+   [ apply Q_nil
+   | apply XL_start; apply le_n
+   | apply XL_stopN; solve [auto]
+   | apply XL_touch; solve [eauto]
+   | apply XL_ext; solve [auto]
    | match goal with
-     | |- life _ _ _ _ (?a :: ?b :: ?l) _ _ => change (a :: b :: l) with ([a] ++ (b :: l)); eapply life_app
-     end
-   | apply leaf_life_compl ].
+     | |- lifeQ _ _ _ _ _ _ (?a :: ?b :: ?l) _ _ => change (a :: b :: l) with ([a] ++ (b :: l)); eapply Q_app
+     end ].
 
-Lemma life_all : forall k e,
-  (forall en cx, GLs k e OFin (start e en cx)) /\
-  (forall st cx, wf2 e st -> GLs k e st (stop e st cx)) /\
-  (forall st id o cx, wf2 e st -> GLs k e st (fst (leafev e st id o cx))).
+Lemma life_all : forall k rho ext e, Rok rho e ->
+  (forall en cx, GLs k rho ext e OFin (start e en cx)) /\
+  (forall st cx, wf2 e st -> GLs k rho ext e st (stop e st cx)) /\
+  (forall st id o cx, wf2 e st -> (key_addr k id = true -> ext = true) ->
+     GLs k rho ext e st (fst (leafev e st id o cx))).
 Proof.
-  intros k.
-  induction e as [v|x| |n|id|id|id c|id lvl| |kk s IHs|kk a IHa b IHb].
-  - repeat split; intros; simpl in *; try contradiction; try exact I; apply L_nil.
-  - repeat split; intros; simpl in *; try contradiction; try exact I; apply L_nil.
-  - repeat split; intros; simpl in *; try contradiction; try exact I; apply L_nil.
-  - repeat split; intros; simpl in *; try contradiction; try exact I; apply L_nil.
+  intros k rho ext.
+  induction e as [v|x| |n|id|id|id c|id lvl| |kk s IHs|kk a IHa b IHb]; intros Hr.
+  - repeat split; intros; simpl in *; try contradiction; try exact I; apply Q_nil.
+  - repeat split; intros; simpl in *; try contradiction; try exact I; apply Q_nil.
+  - repeat split; intros; simpl in *; try contradiction; try exact I; apply Q_nil.
+  - repeat split; intros; simpl in *; try contradiction; try exact I; apply Q_nil.
   - (* Leaf *)
     split; [|split].
-    + intros en cx. simpl. destruct (e_stopped en); leaf_solve.
-    + intros st cx H. destruct st as [|[|] [|]| | |]; simpl in *; try contradiction; leaf_solve.
-    + intros st id0 o cx H. destruct st as [|[|] sn| | |]; simpl in *; try contradiction.
-      destruct (Nat.eqb id0 id); leaf_solve.
+    + intros en cx. simpl. destruct (e_stopped en); leaf_solveX.
+    + intros st cx H. destruct st as [|[|] [|]| | |]; simpl in *; try contradiction; leaf_solveX.
+    + intros st id0 o cx H Hx. destruct st as [|[|] sn| | |]; simpl in *; try contradiction.
+      destruct (Nat.eqb id0 id) eqn:E; [apply Nat.eqb_eq in E; subst; assert (lkb k id = true -> ext = true) by (intros L; apply Hx, lkb_addr, L)|]; leaf_solveX.
   - (* LeafN *)
+    assert (rho id = true) as R by (apply Hr; simpl; auto).
     split; [|split].
-    + intros en cx. simpl. destruct (e_stopped en); leaf_solve.
-    + intros st cx H. destruct st as [|[|] [|]| | |]; simpl in *; try contradiction; leaf_solve.
-    + intros st id0 o cx H. destruct st as [|[|] [|]| | |]; simpl in *; try contradiction.
-      destruct (Nat.eqb id0 id); leaf_solve.
+    + intros en cx. simpl. destruct (e_stopped en); leaf_solveX.
+    + intros st cx H. destruct st as [|[|] [|]| | |]; simpl in *; try contradiction; leaf_solveX.
+    + intros st id0 o cx H Hx. destruct st as [|[|] [|]| | |]; simpl in *; try contradiction.
+      destruct (Nat.eqb id0 id) eqn:E; [apply Nat.eqb_eq in E; subst; assert (lkb k id = true -> ext = true) by (intros L; apply Hx, lkb_addr, L)|]; leaf_solveX.
   - (* Sched *)
-    assert (ST : forall m, sk k c <= m -> life k m 0 0 [TSchedStart id c] (sk k c) 0).
-    { intros m Hm. unfold sk in *. destruct (skb k c) eqn:E.
-      - apply L_start; [simpl; rewrite E; reflexivity|lia|apply L_nil].
-      - apply L_skip; [simpl; rewrite E; reflexivity|apply L_nil]. }
-    assert (CO : forall m, life k m (sk k c) 0 [] 0 (sk k c)).
-    { intros m. unfold sk. destruct (skb k c); [apply L_compl|]; apply L_nil. }
+    assert (ST : forall m, sk k c <= m -> lifeQ k m rho ext 0 0 [TSchedStart id c] (sk k c) 0).
+    { intros m Hm p. exists p. unfold sk in *. destruct (skb k c) eqn:E.
+      - apply X_start; [simpl; rewrite E; reflexivity|lia|apply X_nil].
+      - apply X_skip; [simpl; rewrite E; reflexivity|apply X_nil]. }
+    assert (CO : forall m id0, (key_addr k id0 = true -> ext = true) -> lifeQ k m rho ext (sk k c) 0 [] 0 (sk k c)).
+    { intros m id0 Hx p. exists p. unfold sk. destruct (skb k c) eqn:E; [|apply X_nil].
+      apply X_ext; [apply Hx; eapply skb_addr; exact E|apply X_nil]. }
     split; [|split].
     + intros en cx. simpl. unfold GLs, good2, Lgood, lifeS; simpl. split; [destruct (e_stopped en); exact I|].
       apply ST. apply le_n.
     + intros st cx H. destruct st as [|[|] [|]| | |]; simpl in *; try contradiction;
-        unfold GLs, good2, Lgood, lifeS; simpl; (split; [exact I|apply L_nil]).
-    + intros st id0 o cx H. destruct st as [|[|] sn| | |]; simpl in *; try contradiction.
+        unfold GLs, good2, Lgood, lifeS; simpl; (split; [exact I|apply Q_nil]).
+    + intros st id0 o cx H Hx. destruct st as [|[|] sn| | |]; simpl in *; try contradiction.
       destruct (Nat.eqb id0 id); unfold GLs, good2, Lgood, lifeS; simpl; (split; [exact I|]);
-        [apply CO|apply L_nil].
+        [apply (CO _ id0 Hx)|apply Q_nil].
   - (* LeafR *)
     split; [|split].
-    + intros en cx. simpl. destruct (e_stopped en); leaf_solve.
-    + intros st cx H. destruct st as [|[|] [|]| | |]; simpl in *; try contradiction; leaf_solve.
-    + intros st id0 o cx H. destruct st as [|[|] sn| | |]; simpl in *; try contradiction.
-      * destruct (Nat.eqb id0 id) eqn:E; [apply Nat.eqb_eq in E; subst; destruct o|]; leaf_solve.
-      * destruct (Nat.eqb id0 id); leaf_solve.
+    + intros en cx. simpl. destruct (e_stopped en); leaf_solveX.
+    + intros st cx H. destruct st as [|[|] [|]| | |]; simpl in *; try contradiction; leaf_solveX.
+    + intros st id0 o cx H Hx. destruct st as [|[|] sn| | |]; simpl in *; try contradiction.
+      * destruct (Nat.eqb id0 id) eqn:E; [apply Nat.eqb_eq in E; subst; assert (lkb k id = true -> ext = true) by (intros L; apply Hx, lkb_addr, L); destruct o|]; leaf_solveX.
+      * destruct (Nat.eqb id0 id) eqn:E; [apply Nat.eqb_eq in E; subst; assert (lkb k id = true -> ext = true) by (intros L; apply Hx, lkb_addr, L)|]; leaf_solveX.
   - (* StopIf *)
-    repeat split; intros; simpl in *; try contradiction; try exact I; apply L_nil.
+    repeat split; intros; simpl in *; try contradiction; try exact I; apply Q_nil.
   - (* Un *)
-    destruct IHs as (IH1 & IH2 & IH3). split; [|split].
+    destruct (IHs Hr) as (IH1 & IH2 & IH3). split; [|split].
     + intros en cx. split; [apply spec_all|]. repeat lstep; finish_L.
     + intros st cx H. split; [apply spec_all; exact H|].
       destruct st as [| |ns sc sx| |]; simpl in H; try contradiction.
       destruct sx; try contradiction.
       destruct kk; simpl; repeat lstep; finish_L.
-    + intros st id o cx H. split; [apply spec_all; exact H|].
+    + intros st id o cx H Hx. split; [apply spec_all; exact H|].
       destruct st as [| |ns sc sx| |]; simpl in H; try contradiction.
       destruct sx; try contradiction.
       repeat lstep; finish_L.
   - (* Bin *)
-    destruct IHa as (IHa1 & IHa2 & IHa3). destruct IHb as (IHb1 & IHb2 & IHb3).
+    assert (Rok rho a) as Hra by (intros i Hi; apply Hr; simpl; apply in_or_app; auto).
+    assert (Rok rho b) as Hrb by (intros i Hi; apply Hr; simpl; apply in_or_app; auto).
+    destruct (IHa Hra) as (IHa1 & IHa2 & IHa3). destruct (IHb Hrb) as (IHb1 & IHb2 & IHb3).
     split; [|split].
     + intros en cx. split; [apply spec_all|]. destruct (is_seq kk) eqn:Hk.
       * repeat lstep; finish_L.
@@ -698,7 +863,7 @@ Proof.
       * destruct H as (Ha & Hb & Hab).
         destruct (adone ns) eqn:A0; destruct (bdone ns) eqn:B0; simpl in Hab; try discriminate; subst;
           repeat lstep; finish_L.
-    + intros st id o cx H. split; [apply spec_all; exact H|].
+    + intros st id o cx H Hx. split; [apply spec_all; exact H|].
       destruct st as [| |ns sa sb| |]; simpl in H; try contradiction.
       destruct (is_seq kk) eqn:Hk.
       * destruct (ph ns) eqn:P0; try contradiction; destruct H as (Ha & Hb); subst;
@@ -712,31 +877,83 @@ Transparent conc_child_done un_result after_first after_second is_seq un_done se
        finish_conc rep_done retry_a_done retry_b_done un_own un_nst un_env fired res_err dtor.
 Arguments good2 e r : simpl nomatch.
 
-(* the three entry points, stated separately *)
-Theorem start_life : forall k e en cx st tr r, start e en cx = (st, tr, r) -> lifeS k e OFin tr st.
+(* the canonical rho of an expression: its stop-reactive leaf ids *)
+Definition rho_of (e : sexpr) (id : nat) : bool := existsb (Nat.eqb id) (leafN_ids e).
+
+Lemma rho_of_ok : forall e, Rok (rho_of e) e.
 Proof.
-  intros k e en cx st tr r H. pose proof (proj2 (proj1 (life_all k e) en cx)) as L.
+  intros e id H. unfold rho_of. apply existsb_exists. exists id. split; [exact H|apply Nat.eqb_refl].
+Qed.
+
+(* the three entry points, stated separately.  start and stop are not addressed to any key (ext = false):
+   operation states complete in them only from their own stop callback *)
+Theorem start_life : forall k rho ext e en cx st tr r, Rok rho e ->
+  start e en cx = (st, tr, r) -> lifeS k rho ext e OFin tr st.
+Proof.
+  intros k rho ext e en cx st tr r R H. pose proof (proj2 (proj1 (life_all k rho ext e R) en cx)) as L.
   unfold Lgood in L. rewrite H in L. exact L.
 Qed.
 
-Theorem stop_life : forall k e st0 cx st tr r, wf2 e st0 -> stop e st0 cx = (st, tr, r) -> lifeS k e st0 tr st.
+Theorem stop_life : forall k rho ext e st0 cx st tr r, Rok rho e -> wf2 e st0 ->
+  stop e st0 cx = (st, tr, r) -> lifeS k rho ext e st0 tr st.
 Proof.
-  intros k e st0 cx st tr r W H. pose proof (proj2 (proj1 (proj2 (life_all k e)) st0 cx W)) as L.
+  intros k rho ext e st0 cx st tr r R W H.
+  pose proof (proj2 (proj1 (proj2 (life_all k rho ext e R)) st0 cx W)) as L.
   unfold Lgood in L. rewrite H in L. exact L.
 Qed.
 
-Theorem leafev_life : forall k e st0 id o cx st tr r hit, wf2 e st0 ->
-  leafev e st0 id o cx = ((st, tr, r), hit) -> lifeS k e st0 tr st.
+Theorem leafev_life : forall k rho e st0 id o cx st tr r hit, Rok rho e -> wf2 e st0 ->
+  leafev e st0 id o cx = ((st, tr, r), hit) -> lifeS k rho (key_addr k id) e st0 tr st.
 Proof.
-  intros k e st0 id o cx st tr r hit W H. pose proof (proj2 (proj2 (proj2 (life_all k e)) st0 id o cx W)) as L.
+  intros k rho e st0 id o cx st tr r hit R W H.
+  pose proof (proj2 (proj2 (proj2 (life_all k rho (key_addr k id) e R)) st0 id o cx W (fun x => x))) as L.
   unfold Lgood in L. rewrite H in L. exact L.
 Qed.
 
 (* is a running leaf ever destroyed?  No: a completed operation contains no running operation state, and
-   every destruction cascade the model emits is [dtor] of a completed operation (that is what [life]'s dtor
-   rule checks event by event). *)
+   every destruction cascade the model emits is [dtor] of a completed operation (that is what the dtor
+   rule of the automata checks event by event). *)
 Theorem done_no_running : forall k e st, done_st e st -> nr k e st = 0.
 Proof. exact done_nr. Qed.
+
+(* What "justified" buys: in a call that is not addressed to key k (start, stop, a leaf event with another
+   id), if k is not stop-reactive, NO operation state of k completes: every running one is still running
+   afterwards (r' = r + starts), and only operation states that were completed BEFORE the call are
+   destroyed (d = d' + dtors). *)
+Definition rho_key (k : key) (rho : nat -> bool) : bool := match k with KLeaf i => rho i | KSched _ => false end.
+
+Fixpoint cntx (k : key) (rho : nat -> bool) (a : xact) (tr : list tev) : nat :=
+  match tr with
+  | [] => 0
+  | t :: r =>
+      (match ev_xact k rho t, a with
+       | Some XStart, XStart => 1 | Some XTouch, XTouch => 1 | Some XTouchC, XTouchC => 1 | Some XDtor, XDtor => 1
+       | _, _ => 0
+       end) + cntx k rho a r
+  end.
+
+Lemma no_touchC : forall k rho t, rho_key k rho = false -> ev_xact k rho t <> Some XTouchC.
+Proof.
+  intros k rho t H. destruct t; simpl; try discriminate;
+    try (destruct (lkb k id) eqn:E; try discriminate);
+    try (destruct (skb k c); discriminate).
+  destruct k as [i|c]; simpl in *; try discriminate. apply Nat.eqb_eq in E. subst. rewrite H. discriminate.
+Qed.
+
+Theorem no_completion_unaddressed : forall k m rho r d tr r' d' p',
+  lifeX k m rho false r d 0 tr r' d' p' -> rho_key k rho = false ->
+  r' = r + cntx k rho XStart tr /\ d = d' + cntx k rho XDtor tr.
+Proof.
+  intros k m rho r d tr r' d' p' H R.
+  remember 0 as p eqn:Ep. revert Ep.
+  induction H; intros Ep; subst; simpl; try discriminate.
+  - lia.
+  - specialize (IHlifeX eq_refl). rewrite H. lia.
+  - specialize (IHlifeX eq_refl). rewrite H. lia.
+  - exfalso. exact (no_touchC k rho t R H).
+  - specialize (IHlifeX eq_refl). rewrite H. lia.
+  - specialize (IHlifeX eq_refl). rewrite H. lia.
+Qed.
 
 (* ------------------------------------------------------------------------------------------------ *)
 (* Whole runs                                                                                       *)
@@ -759,52 +976,96 @@ Proof. induction tr as [|t tr IH]; simpl; congruence. Qed.
 Lemma tevs_skips : forall n, tevs (repeat XSkip n) = [].
 Proof. induction n; simpl; auto. Qed.
 
+(* ---- one script event at a time (refined automaton, boundary states pinned by the model) ---- *)
+
+(* is the script event addressed to key k?  EvRun c is addressed like the item it dequeues *)
+Definition step_ext (k : key) (rs : run_state) (ev : sev) : bool :=
+  match ev with
+  | EvLeaf id _ _ => key_addr k id
+  | EvStop _ => false
+  | EvRun c => match dequeue c (r_queue rs) with Some (id, _) => key_addr k id | None => false end
+  end.
+
+Definition step_ok (k : key) (e : sexpr) (ext : bool) (rs rs' : run_state) : Prop :=
+  exists suf, r_tr rs' = r_tr rs ++ suf /\
+    lifeQ k (cap k e) (rho_of e) ext (nr k e (r_st rs)) (nd k e (r_st rs)) (tevs suf)
+          (nr k e (r_st rs')) (nd k e (r_st rs')).
+
+Lemma absorb_step : forall k e ext rs r cx, Lgood k (rho_of e) ext e (r_st rs) r -> step_ok k e ext rs (absorb rs r cx).
+Proof.
+  intros k e ext rs [[st tr] [o|]] cx L; unfold Lgood, lifeS in L; simpl in L; unfold step_ok, absorb; simpl.
+  - eexists. split; [rewrite <- app_assoc; reflexivity|]. rewrite tevs_app, tevs_XT. simpl. rewrite app_nil_r. exact L.
+  - eexists. split; [reflexivity|]. rewrite tevs_XT. exact L.
+Qed.
+
+Lemma skip_step : forall k e ext rs, step_ok k e ext rs (skip rs).
+Proof. intros. exists [XSkip]. split; [reflexivity|]. simpl. apply Q_nil. Qed.
+
+Lemma run_ev_step : forall k e rs ev, RInv2 e rs -> step_ok k e (step_ext k rs ev) rs (run_ev e rs ev).
+Proof.
+  intros k e rs ev [(H0 & Hw)|(H1 & Hf)].
+  - destruct ev as [id o cx|cx|c]; simpl.
+    + pose proof (proj2 (proj2 (proj2 (life_all k (rho_of e) (key_addr k id) e (rho_of_ok e))) _ id o cx Hw (fun x => x))) as G.
+      destruct (leafev e (r_st rs) id o cx) as [r hit]. simpl in G.
+      destruct hit; [apply absorb_step; assumption|apply skip_step].
+    + destruct (r_stopped rs); [apply skip_step|].
+      apply (absorb_step k e false {| r_st := r_st rs; r_stopped := true; r_roots := r_roots rs; r_tr := r_tr rs;
+                                      r_queue := r_queue rs |}).
+      simpl. apply (proj2 (life_all k (rho_of e) false e (rho_of_ok e))). exact Hw.
+    + destruct (dequeue c (r_queue rs)) as [[id q']|]; [|apply skip_step].
+      pose proof (proj2 (proj2 (proj2 (life_all k (rho_of e) (key_addr k id) e (rho_of_ok e))) _ id (OVal 0%Z) c Hw (fun x => x))) as G.
+      destruct (leafev e (r_st rs) id (OVal 0%Z) c) as [r hit]. simpl in G.
+      destruct hit.
+      * apply (absorb_step k e (key_addr k id) {| r_st := r_st rs; r_stopped := r_stopped rs; r_roots := r_roots rs;
+                                                   r_tr := r_tr rs; r_queue := q' |}). exact G.
+      * apply (skip_step k e (key_addr k id) {| r_st := r_st rs; r_stopped := r_stopped rs; r_roots := r_roots rs;
+                                                 r_tr := r_tr rs; r_queue := q' |}).
+  - destruct (run_ev_fin e rs ev (done_inert _ _ Hf)) as (A & _ & C). unfold step_ok. rewrite A.
+    destruct C as [C|C]; rewrite C.
+    + exists []. split; [rewrite app_nil_r; reflexivity|apply Q_nil].
+    + exists [XSkip]. split; [reflexivity|apply Q_nil].
+Qed.
+
+(* (a) never early, per script event: the events the model emits for one script event take every key's
+   refined automaton from the state read off the model before the event to the state read off after it;
+   the start() call likewise from nothing *)
+Theorem C02_step : forall k e pre script ev,
+  let rs := run e pre script in
+  step_ok k e (step_ext k rs ev) rs (run e pre (script ++ [ev])).
+Proof.
+  intros k e pre script ev. cbv zeta. rewrite run_app. simpl. apply run_ev_step. apply run_inv.
+Qed.
+
+Theorem C02_step_start : forall k e pre,
+  lifeQ k (cap k e) (rho_of e) false 0 0 (tevs (r_tr (run e pre [])))
+        (nr k e (r_st (run e pre []))) (nd k e (r_st (run e pre []))).
+Proof.
+  intros k e pre. unfold run. simpl. unfold run_start.
+  pose proof (proj2 (proj1 (life_all k (rho_of e) false e (rho_of_ok e)) (root_env pre) 0%nat)) as L.
+  unfold Lgood, lifeS in L. rewrite nr_fin, nd_fin in L.
+  destruct (start e (root_env pre) 0%nat) as [[st tr] [o|]]; simpl in *.
+  - rewrite tevs_app, tevs_XT. simpl. rewrite app_nil_r. exact L.
+  - rewrite tevs_XT. exact L.
+Qed.
+
+(* ---- whole traces (coarse automaton) ---- *)
+
 (* the automaton state of key k after a run is the one read off the run's operation state *)
 Definition LInv (k : key) (e : sexpr) (rs : run_state) : Prop :=
   life k (cap k e) 0 0 (tevs (r_tr rs)) (nr k e (r_st rs)) (nd k e (r_st rs)).
 
-Lemma absorb_LInv : forall k e rs r cx, LInv k e rs -> Lgood k e (r_st rs) r -> LInv k e (absorb rs r cx).
+Lemma step_LInv : forall k e ext rs rs', LInv k e rs -> step_ok k e ext rs rs' -> LInv k e rs'.
 Proof.
-  intros k e rs [[st tr] [o|]] cx I L; unfold Lgood, lifeS in L; simpl in L; unfold LInv, absorb in *; simpl.
-  - rewrite !tevs_app, tevs_XT. simpl. rewrite app_nil_r. eapply life_app; eassumption.
-  - rewrite !tevs_app, tevs_XT. eapply life_app; eassumption.
-Qed.
-
-Lemma skip_LInv : forall k e rs, LInv k e rs -> LInv k e (skip rs).
-Proof. intros k e rs I. unfold LInv, skip in *; simpl. rewrite tevs_app. simpl. rewrite app_nil_r. exact I. Qed.
-
-Lemma run_start_LInv : forall k e pre, LInv k e (run_start e pre).
-Proof.
-  intros. unfold run_start. apply absorb_LInv.
-  - unfold LInv. simpl. rewrite nr_fin, nd_fin. apply L_nil.
-  - simpl. apply (proj1 (life_all k e)).
-Qed.
-
-Lemma run_ev_LInv : forall k e rs ev, RInv2 e rs -> LInv k e rs -> LInv k e (run_ev e rs ev).
-Proof.
-  intros k e rs ev [(H0 & Hw)|(H1 & Hf)] I.
-  - destruct ev as [id o cx|cx|c]; simpl.
-    + pose proof (proj2 (proj2 (proj2 (life_all k e)) _ id o cx Hw)) as G.
-      destruct (leafev e (r_st rs) id o cx) as [r hit]. simpl in G.
-      destruct hit; [apply absorb_LInv; assumption|apply skip_LInv; assumption].
-    + destruct (r_stopped rs); [apply skip_LInv; assumption|].
-      apply absorb_LInv; [exact I|]. simpl. apply (proj2 (life_all k e)). exact Hw.
-    + destruct (dequeue c (r_queue rs)) as [[id q']|]; [|apply skip_LInv; assumption].
-      pose proof (proj2 (proj2 (proj2 (life_all k e)) _ id (OVal 0%Z) c Hw)) as G.
-      destruct (leafev e (r_st rs) id (OVal 0%Z) c) as [r hit]. simpl in G.
-      destruct hit; [apply absorb_LInv; assumption|apply skip_LInv; assumption].
-  - destruct (run_ev_fin e rs ev (done_inert _ _ Hf)) as (A & _ & C). unfold LInv in *. rewrite A.
-    destruct C as [C|C]; rewrite C; [exact I|]. rewrite tevs_app. simpl. rewrite app_nil_r. exact I.
-Qed.
-
-Lemma fold_LInv : forall k e script rs, RInv2 e rs -> LInv k e rs -> LInv k e (fold_left (run_ev e) script rs).
-Proof.
-  induction script as [|ev script IH]; simpl; intros rs R I; [exact I|].
-  apply IH; [apply run_ev_RInv; exact R|apply run_ev_LInv; assumption].
+  intros k e ext rs rs' I (suf & E & L). unfold LInv in *. rewrite E, tevs_app.
+  eapply life_app; [exact I|]. eapply Q_coarse. exact L.
 Qed.
 
 Lemma run_LInv : forall k e pre script, LInv k e (run e pre script).
-Proof. intros. unfold run. apply fold_LInv; [apply run_start_RInv|apply run_start_LInv]. Qed.
+Proof.
+  intros k e pre script. induction script as [|ev script IH] using rev_ind.
+  - unfold LInv. eapply Q_coarse. apply C02_step_start.
+  - eapply step_LInv; [exact IH|]. apply C02_step.
+Qed.
 
 (* C02, automaton form: the whole trace of a run, INCLUDING the owner's destruction of the completed root
    operation, is a legal life cycle for every key, ending in the state read off the final operation state *)
@@ -816,8 +1077,8 @@ Proof.
   pose proof (run_LInv k e pre script) as I. unfold LInv in I.
   destruct (run_inv e pre script) as ([(H & W)|(H & F)] & _); unfold run_end; rewrite H; [exact I|].
   simpl. rewrite tevs_app. simpl. rewrite tevs_XT, nr_fin, nd_fin.
-  eapply life_app; [exact I|]. pose proof (lifeS_dtor k e _ F) as D. unfold lifeS in D.
-  rewrite nr_fin, nd_fin in D. exact D.
+  eapply life_app; [exact I|]. pose proof (lifeS_dtor k (rho_of e) false e _ F) as D. unfold lifeS in D.
+  rewrite nr_fin, nd_fin in D. eapply Q_coarse. exact D.
 Qed.
 
 (* (d) nothing leaked: when the root completed, the run ends with every operation state destroyed *)
@@ -1084,3 +1345,59 @@ Proof.
     + apply dtor_only_dtors.
   - rewrite app_nil_r. exact S.
 Qed.
+
+
+(* ------------------------------------------------------------------------------------------------ *)
+(* (a) never early, in terms of the model state                                                     *)
+(* ------------------------------------------------------------------------------------------------ *)
+
+Lemma cntx_start : forall k rho tr, cntx k rho XStart tr = cnt k AStart tr.
+Proof.
+  induction tr as [|t tr IH]; simpl; [reflexivity|]. unfold is_act. rewrite (xact_act k rho t), IH.
+  destruct (ev_xact k rho t) as [[| | |]|]; reflexivity.
+Qed.
+
+Lemma cntx_dtor : forall k rho tr, cntx k rho XDtor tr = cnt k ADtor tr.
+Proof.
+  induction tr as [|t tr IH]; simpl; [reflexivity|]. unfold is_act. rewrite (xact_act k rho t), IH.
+  destruct (ev_xact k rho t) as [[| | |]|]; reflexivity.
+Qed.
+
+(* A script event that is not addressed to key k, for k not stop-reactive (a plain leaf, a LeafR, a
+   scheduler context): every operation state of k that was running before the event is still running after
+   it (none completed, so none was destroyed), and every destruction of k in this step destroyed an
+   operation state that had completed BEFORE the step. *)
+Theorem C02_dtor_after_completion : forall k e pre script ev,
+  let rs := run e pre script in
+  let rs' := run e pre (script ++ [ev]) in
+  rho_key k (rho_of e) = false -> step_ext k rs ev = false ->
+  exists suf, r_tr rs' = r_tr rs ++ suf /\
+    nr k e (r_st rs') = nr k e (r_st rs) + cnt k AStart (tevs suf) /\
+    nd k e (r_st rs) = nd k e (r_st rs') + cnt k ADtor (tevs suf).
+Proof.
+  intros k e pre script ev rs rs' R X. destruct (C02_step k e pre script ev) as (suf & E & L).
+  fold rs in E, L. fold rs' in E, L. rewrite X in L. exists suf. split; [exact E|].
+  destruct (L 0) as (p' & A). destruct (no_completion_unaddressed _ _ _ _ _ _ _ _ _ A R) as (B & C).
+  rewrite cntx_start in B. rewrite cntx_dtor in C. split; assumption.
+Qed.
+
+(* the same for the start() call: nothing of a non-reactive key completes, nothing of it is destroyed *)
+Theorem C02_start_no_completion : forall k e pre,
+  rho_key k (rho_of e) = false ->
+  nr k e (r_st (run e pre [])) = cnt k AStart (tevs (r_tr (run e pre []))) /\
+  nd k e (r_st (run e pre [])) = 0 /\ cnt k ADtor (tevs (r_tr (run e pre []))) = 0.
+Proof.
+  intros k e pre R. destruct (C02_step_start k e pre 0) as (p' & A).
+  destruct (no_completion_unaddressed _ _ _ _ _ _ _ _ _ A R) as (B & C).
+  rewrite cntx_start in B. rewrite cntx_dtor in C. lia.
+Qed.
+
+(* with unique leaf ids: a plain leaf or LeafR id is not stop-reactive *)
+Lemma rho_of_leaf : forall e id, ~ In id (leafN_ids e) -> rho_key (KLeaf id) (rho_of e) = false.
+Proof.
+  intros e id H. simpl. unfold rho_of. destruct (existsb (Nat.eqb id) (leafN_ids e)) eqn:E; [|reflexivity].
+  apply existsb_exists in E. destruct E as (x & Hx & Ex). apply Nat.eqb_eq in Ex. subst. contradiction.
+Qed.
+
+Lemma rho_of_sched : forall e c, rho_key (KSched c) (rho_of e) = false.
+Proof. reflexivity. Qed.
